@@ -320,8 +320,14 @@ class Session:
         return out
 
     # ---- mastering ----------------------------------------------------------
-    def write(self, virtual=False, blocksize=32768):
-        """write_fp into a tracer.  Returns (tracer | None, Outcome)."""
+    WRITE_BLOCKSIZES = (32768, 32768, 2048, 1000, 65536, 100000, 2049, 512)
+
+    def write(self, virtual=False, blocksize=None):
+        """write_fp into a tracer.  Returns (tracer | None, Outcome).  The copy block size (which must
+        not influence the image) is taken from the seed unless given."""
+        if blocksize is None:
+            blocksize = self.WRITE_BLOCKSIZES[self.seed % len(self.WRITE_BLOCKSIZES)]
+            count('write_blocksize:%d' % blocksize)
         out = WriteTracer(virtual=virtual)
         seq = len(self.events)
         self.events.append(('call', seq, 'write_fp'))
